@@ -22,8 +22,9 @@ type Tracer struct {
 	MaxDepth int
 	KeepConv bool // keep numeric conversions as conv(T) steps
 	// Getters: resolve calls to trivial getters (single return of a receiver field) to the field path.
-	Getters bool
-	memo    map[ssa.Value][]string
+	Getters       bool
+	memo          map[ssa.Value][]string
+	noAllocFields bool
 }
 
 func NewTracer() *Tracer { return &Tracer{MaxDepth: 14, Getters: true, memo: map[ssa.Value][]string{}} }
@@ -249,7 +250,7 @@ func (t *Tracer) load(addr ssa.Value, suffix string, depth int, seen map[ssa.Val
 		}
 	case *ssa.FieldAddr:
 		// field of a locally built struct: the stored value, when the struct is a local allocation
-		if base, ok := a.X.(*ssa.Alloc); ok {
+		if base, ok := a.X.(*ssa.Alloc); ok && !t.noAllocFields {
 			n := 0
 			for _, r := range refs(base) {
 				fa, ok := r.(*ssa.FieldAddr)
@@ -332,4 +333,12 @@ func (t *Tracer) AllOrigins(v ssa.Value, sub string) bool {
 		}
 	}
 	return true
+}
+
+// NewTracerNoAlloc is a tracer that does not resolve field loads of local allocations to the stored value
+// (the path then names the field instead).
+func NewTracerNoAlloc() *Tracer {
+	t := NewTracer()
+	t.noAllocFields = true
+	return t
 }
